@@ -3,7 +3,10 @@ import base64, quopri
 
 NAMES = [b'To', b'to', b'TO', b'From', b'Subject', b'subject', b'Cc', b'Date', b'X-Label', b'x-label',
          b'X-Lab', b'X-Label2', b'Received', b'received', b'Content-Type', b'Content-Transfer-Encoding',
-         b'A', b'a', b'B', b'Z', b'z', b'Message-ID', b'X', b'X-', b'List-Id', b'MIME-Version', b'~x', b'_y', b'0n']
+         b'A', b'a', b'B', b'Z', b'z', b'Message-ID', b'X', b'X-', b'List-Id', b'MIME-Version', b'~x', b'_y', b'0n',
+         # long names that agree in their first 31 characters / extend one another
+         b'X-MS-Exchange-Organization-AuthSource', b'X-MS-Exchange-Organization-AuthAs', b'X-MS-Exchange-Organization-AuthMechanism',
+         b'X-MS-Exchange-Organization-AuthSource-Ext']
 
 WORDS = [b'hello', b'world', b'user@example.com', b'<a@b.c>', b'Re:', b'[list]', b'x', b'lorem ipsum', b'caf\xc3\xa9',
          b'\xff\xfe', b'a=b', b'=?', b'?=', b'1.5', b'\\1', b'${path}', b'"quoted"', b'semi;colon', b'tab\there']
